@@ -1679,6 +1679,31 @@ def table_get_to_chain(func):
                 uses = [x for x in ast.walk(func) if isinstance(x, ast.Name) and x.id == name]
                 called = [x for b in nxt.body for x in ast.walk(b) if isinstance(x, ast.Call) and isinstance(x.func, ast.Name) and x.func.id == name]
                 in_test = [x for x in ast.walk(nxt.test) if isinstance(x, ast.Name) and x.id == name]
+                none_guard = (isinstance(t, ast.UnaryOp) and isinstance(t.op, ast.Not) and isinstance(t.operand, ast.Name)
+                              and t.operand.id == name) or (
+                    isinstance(t, ast.Compare) and len(t.ops) == 1 and isinstance(t.ops[0], ast.Is) and isinstance(t.left, ast.Name)
+                    and t.left.id == name and isinstance(t.comparators[0], ast.Constant) and t.comparators[0].value is None)
+                if (none_guard and key_ok and d.keys and all(k is not None for k in d.keys)
+                        and all(isinstance(v, (ast.Attribute, ast.Lambda)) for v in d.values)
+                        and isinstance(nxt.body[-1], (ast.Return, ast.Raise, ast.Continue, ast.Break))
+                        and not any(isinstance(x, ast.Name) and x.id == name for b in nxt.body for x in ast.walk(b))):
+                    # `h = TABLE.get(key)`, `if h is None: <leave>`: the miss branch of the lookup (the entries are methods and
+                    # lambdas, never None) - the code base writes it `try: h = TABLE[key]` / `except KeyError: <leave>`
+                    tname = '_handler_dict_%d' % getattr(st, 'lineno', count)
+                    bind = ast.Assign(targets=[ast.Name(id=tname, ctx=ast.Store())], value=d, type_comment=None)
+                    look = ast.Assign(targets=[st.targets[0]], value=ast.Subscript(value=ast.Name(id=tname, ctx=ast.Load()), slice=key,
+                                                                                   ctx=ast.Load()), type_comment=None)
+                    tr = ast.Try(body=[look], handlers=[ast.ExceptHandler(type=ast.Name(id='KeyError', ctx=ast.Load()), name=None,
+                                                                          body=nxt.body)], orelse=[], finalbody=[])
+                    ast.copy_location(tr, st)
+                    ast.copy_location(look, st)
+                    ast.copy_location(bind, st)
+                    ast.fix_missing_locations(bind)
+                    ast.fix_missing_locations(tr)
+                    stmts[j:j + 2] = [bind, tr]
+                    count += 1
+                    j += 2
+                    continue
                 if guard_ok and vals_ok and key_ok and called and len(uses) == 1 + len(in_test) + len(called):
                     chain = None
                     for k, v in reversed(list(zip(d.keys, d.values))):
@@ -3081,6 +3106,9 @@ class Inliner:
                 k = beta_reduce(fi.node)
                 if k:
                     self.report['lambda_applications'][q] = k
+                k = table_get_to_chain(fi.node)
+                if k:
+                    self.report.setdefault('table_get_chains', {})[q] = self.report.get('table_get_chains', {}).get(q, 0) + k
                 k = inline_bound_method_locals(fi.node)
                 if k:
                     self.report.setdefault('bound_method_locals', {})[q] = k
